@@ -790,6 +790,9 @@ def py_equal(interp, a, b):
     if isinstance(a, Seq) and isinstance(b, Seq):
         if a is b:
             return True
+        hk = getattr(interp, 'seq_eq_hook', None)
+        if hk is not None:
+            return hk(interp, a, b)
         return seq_py_eq(interp, a, b)
     try:
         x, y = as_v(a), as_v(b)
